@@ -138,6 +138,11 @@ fn cases(tier: Tier) -> &'static Vec<Case> {
     }
 }
 
+/// Read timeout only (write and connect left unset): whatever bounds a receive must be the READ timeout.
+pub fn timeouts_read_only(retries: usize) -> Option<TimeoutSettings> {
+    Some(TimeoutSettings::new(Some(Duration::from_millis(50)), None, None, retries).unwrap())
+}
+
 pub fn timeouts(retries: usize) -> Option<TimeoutSettings> {
     Some(
         TimeoutSettings::new(
@@ -187,10 +192,10 @@ impl Prop for C01 {
         if let Some(k) = case.stuck_at {
             let server = Box::new(Stuck { inner: (case.target.server)(), k, seen: 0, frozen: None });
             let call = case.target.call.clone();
-            let ts = timeouts(case.retries);
+            let ts = timeouts_read_only(case.retries);
             let x = run_query(server, Box::new(crate::vnet::Faithful), Chooser::new(&[]), || call(ts));
             ctx.account(&x, 0);
-            if check_total(ctx, &x, &format!("{tag}:stuck-server")) {
+            if check_total(ctx, &x, &format!("{tag}:stuck-server")) && check_no_blocked_receive(ctx, &x, &tag) {
                 ctx.distinct_key(&(case.label.clone(), x.outcome.class(), x.log.len()));
                 ctx.sample(serde_json::json!({"case": case.label, "outcome": x.outcome.class(), "wire_events": x.log.len()}));
             }
@@ -212,12 +217,12 @@ impl Prop for C01 {
                     refuse_tcp: true,
                     extremes_only: case.extremes_only,
                 };
-                let ts = timeouts(case.retries);
+                let ts = timeouts_read_only(case.retries);
                 let call = case.target.call.clone();
                 (run_query(server, Box::new(policy), ch, || call(ts)), ())
             },
             |ctx, x, _| {
-                if check_total(ctx, x, &tag) && x.choices().iter().all(|c| *c == 0) {
+                if check_total(ctx, x, &tag) && check_no_blocked_receive(ctx, x, &tag) && x.choices().iter().all(|c| *c == 0) {
                     ctx.sample(serde_json::json!({"case": case.label, "default_run": x.outcome.class(), "wire_events": x.log.len(), "choice_points": x.points.len(), "menus": x.points.iter().map(|p| p.menu).collect::<Vec<_>>() }));
                 }
             },
